@@ -1,1 +1,126 @@
-import SwcVerif.Model.Redirect
+import SwcVerif.Proofs.Represent
+import SwcVerif.Props.C05
+import SwcVerif.Props.C09
+/-! # C03 — every tree operation returns a well-formed tree and leaves its inputs untouched
+
+The per-operation models (C05 sort, C06 subtree / prune, C07 re-root; geometric transforms, smoothing and
+the SWC round trip do not touch the parent list at all — C12, C16, C01) are composed here: every
+operation maps a well-formed parent list (`C07.WF`: ids are positions, node 0 the only root, every other
+parent a node, every node reaches the root) to a well-formed one, so by induction every intermediate result
+of every pipeline is well formed.  "Inputs untouched / no shared storage" is the heap statement of C09
+(`copy_fresh`, `detach_fresh`, `write_frame`, `run_wf`): every operation starts with `tree.copy()` or builds
+its columns by fancy indexing, both of which allocate. -/
+namespace C03
+open Redir SortM Sub
+
+abbrev WF := C07.WF
+
+/-- parents precede children -/
+def Sorted (pids : List Int) : Prop := ∀ k (h : k < pids.length), 0 < k → pids[k] < (k : Int)
+
+inductive Op where
+  | sort                       -- sort_tree
+  | redirect (k : Nat)         -- redirect_tree(tree, k) (sort = True)
+  | subtree (k : Nat)          -- get_subtree / Node.subtree
+  | prune (rm : List Int)      -- to_subtree / cut_tree / CutBy…: the removal list they hand to to_subtree
+  | geometric                  -- Translate / Scale / Rotate* / TranslateOrigin / Normalizer / RadiusReseter / TreeSmoother
+  | roundtrip                  -- Tree.from_swc(tree.to_swc())
+deriving Repr
+
+/-- the parent list after one operation (`none` = the operation raises / is not applicable) -/
+def applyOp (pids : List Int) : Op → Option (List Int)
+  | .sort => match sortNodesImpl (rangeI pids.length) pids with
+    | .ok r => some r.newPids
+    | .error _ => none
+  | .redirect k =>
+    if k < pids.length then (redirectSorted pids (List.replicate pids.length 0) (k : Int)).map (·.1) else none
+  | .subtree k => if k < pids.length then (getSubtree pids (k : Int)).map (·.newPid) else none
+  | .prune rm =>
+    if rm.all (fun v => decide (0 < v) && decide (v < pids.length)) then (toSubtree pids rm).map (·.newPid) else none
+  | .geometric => some pids
+  | .roundtrip => some pids
+
+/-- which operations document sorted output -/
+def sortsOutput : Op → Bool
+  | .sort | .redirect _ | .subtree _ => true
+  | _ => false
+
+/-- a sorted table with root 0 and valid parents is well formed (every node reaches the root because parents
+are strictly smaller) -/
+theorem wf_of_sorted (pids : List Int) (h0 : pids.head? = some (-1)) (hs : Sorted pids)
+    (hv : ∀ k (h : k < pids.length), 0 < k → 0 ≤ pids[k]) : WF pids := by
+  sorry
+
+/-- **sorting a well-formed tree gives a well-formed, sorted tree** (C05 + the representation lemma) -/
+theorem sort_wf (pids : List Int) (hw : WF pids) :
+    ∃ out, applyOp pids .sort = some out ∧ WF out ∧ Sorted out ∧ out.length = pids.length := by
+  sorry
+
+/-- **the subtree at any node is a well-formed, sorted tree** -/
+theorem subtree_wf (pids : List Int) (hw : WF pids) (k : Nat) (hk : k < pids.length) :
+    ∃ out, applyOp pids (.subtree k) = some out ∧ WF out ∧ Sorted out := by
+  sorry
+
+/-- **pruning (any removal set that spares the root) gives a well-formed tree** -/
+theorem prune_wf (pids : List Int) (hw : WF pids) (rm : List Int) (hr : ∀ v ∈ rm, 0 < v ∧ v < pids.length) :
+    ∃ out, applyOp pids (.prune rm) = some out ∧ WF out := by
+  sorry
+
+/-- **re-rooting (with the final sort) gives a well-formed, sorted tree** -/
+theorem redirect_wf (pids : List Int) (hw : WF pids) (k : Nat) (hk : k < pids.length) :
+    ∃ out, applyOp pids (.redirect k) = some out ∧ WF out ∧ Sorted out ∧ out.length = pids.length := by
+  sorry
+
+/-- re-rooting with sorting switched off keeps every node at its position and makes the requested node the
+only parentless one (C07.redirect_root), i.e. the new root stays at its old position -/
+theorem redirect_nosort_root_position (pids types : List Int) (hw : WF pids) (k : Nat) (hk : k < pids.length) :
+    (redirect pids types (k : Int)).pids.length = pids.length ∧
+    ∀ v, v < pids.length → ((redirect pids types (k : Int)).pids.getD v 0 = -1 ↔ v = k) := by
+  sorry
+
+/-- an operation is admissible on a tree when its arguments name nodes of that tree -/
+def Admissible (pids : List Int) : Op → Prop
+  | .redirect k => k < pids.length
+  | .subtree k => k < pids.length
+  | .prune rm => ∀ v ∈ rm, 0 < v ∧ v < pids.length
+  | _ => True
+
+/-- **one step**: an admissible operation on a well-formed tree succeeds and returns a well-formed tree,
+sorted where documented -/
+theorem op_wf (pids : List Int) (hw : WF pids) (op : Op) (ha : Admissible pids op) :
+    ∃ out, applyOp pids op = some out ∧ WF out ∧ (sortsOutput op = true → Sorted out) := by
+  sorry
+
+/-- run a pipeline, collecting every intermediate parent list (stops at the first failure) -/
+def runOps : List Int → List Op → List (List Int)
+  | _, [] => []
+  | pids, op :: ops => match applyOp pids op with
+    | some out => out :: runOps out ops
+    | none => []
+
+/-- a pipeline is admissible when each operation is admissible on the tree it is applied to -/
+def AdmissibleAll : List Int → List Op → Prop
+  | _, [] => True
+  | pids, op :: ops => Admissible pids op ∧ ∀ out, applyOp pids op = some out → AdmissibleAll out ops
+
+/-- **every pipeline**: after every step of every admissible sequence of operations on a well-formed tree the
+result is a well-formed tree, and no step fails -/
+theorem pipeline_wf (pids : List Int) (hw : WF pids) (ops : List Op) (ha : AdmissibleAll pids ops) :
+    (runOps pids ops).length = ops.length ∧ ∀ t ∈ runOps pids ops, WF t := by
+  sorry
+
+/-- **inputs are never modified and results share no storage** (heap level, C09): whatever operations run
+later on the copy an operation works on, every array of the original keeps its content -/
+theorem inputs_untouched (h : Views.Heap) (hw : C09.WFHeap h) (o : Nat) (ho : o < h.objs.length) (later : List Views.Op)
+    (hl : ∀ op ∈ later, (∃ i c v, op = Views.Op.nodeWrite h.objs.length i c v) ∨ (∃ k c v, op = Views.Op.ownerWrite h.objs.length k c v)) :
+    let h1 := (Views.step h (.copy o)).1
+    let h2 := (Views.run h1 later).1
+    ∀ a, a < h.arrs.length → h2.arr a = h.arr a := by
+  sorry
+
+-- non-vacuity / concrete behaviour
+def exP : List Int := [-1, 3, 0, 0, 3]
+example : runOps exP [.sort, .subtree 1, .geometric, .prune [1]] = [[-1, 0, 1, 1, 0], [-1, 0, 0], [-1, 0, 0], [-1, 0]] := by decide +kernel
+example : applyOp exP (.redirect 4) = some [-1, 0, 1, 1, 3] := by decide +kernel
+
+end C03
